@@ -267,3 +267,51 @@ def commit_tag_argv(cfg_msg_empty: bool, m: str) -> bool:
     else:
         want = [TOOL, "tag", "1.2.4"]
     return _same(tags[0], want)
+
+
+# ---------------------------------------------------------------------------------------------------------------------
+# L5: the configured template reaches the settings object as written in the config file (setup.cfg: no interpolation of '%',
+# no case folding, inner quotes kept; only the surrounding quotes and blanks are dropped)
+
+CFG_TEMPLATES = [
+    "bump {old_version} -> {new_version} (100% done)",
+    "cov 100%% [%(version_pattern)s] {new_version}",
+    "20% faster; $HOME `id` -m 'x' \\n {new_version}",
+    "--amend {new_version} # not a comment ; either",
+    "Release: {new_version}=It's \"the\" one",
+]
+
+
+def configured_template_verbatim(k: int, quote: int, which: bool, toml_file: bool) -> bool:
+    """
+    pre: 0 <= k < len(CFG_TEMPLATES) and 0 <= quote <= 2
+    post: _
+    """
+    from bumpver import config
+    from vp.memfs import MemFS, NS
+    from vp import hygiene
+    hygiene.restore_module_state(config)
+    tpl = CFG_TEMPLATES[k]
+    key = "commit_message" if which else "tag_message"
+    if toml_file:
+        fname = "bumpver.toml"
+        text = '[bumpver]\ncurrent_version = "1.2.3"\nversion_pattern = "MAJOR.MINOR.PATCH"\ncommit = true\ntag = true\n' + \
+               key + " = '''" + tpl + "'''\n\n[bumpver.file_patterns]\n\"bumpver.toml\" = ['current_version = \"{version}\"']\n"
+    else:
+        fname = "setup.cfg"
+        q = ['"', "'", ""][quote]
+        if q and (tpl.endswith(q) or tpl.startswith(q)):
+            return True
+        text = "[bumpver]\ncurrent_version = 1.2.3\nversion_pattern = MAJOR.MINOR.PATCH\ncommit = True\ntag = True\n" + \
+               key + " = " + q + tpl + q + "\n\n[bumpver:file_patterns]\nsetup.cfg =\n    current_version = {version}\n"
+    fs = MemFS({fname: text})
+    saved = config.pl
+    config.pl = NS(Path=fs.Path)
+    try:
+        ctx = config.init_project_ctx(".")
+        cfg = config.parse(ctx)
+    finally:
+        config.pl = saved
+    if cfg is None:
+        return False
+    return getattr(cfg, key) == tpl
